@@ -28,6 +28,11 @@
 (*       private list;                                                     *)
 (*    "render_mutates_data": a {let} / a {param} of a data="all" call is   *)
 (*       written into the template's data map instead of a fresh frame;    *)
+(*    "callee_params_into_shared_map": the {param}s of a {call data="E"}   *)
+(*       whose E hands on one of the caller's own maps ($m, or              *)
+(*       augmentMap($m, <empty map>)) are stored in that map, which lives   *)
+(*       in the shared-data cell sh.shared (caller data shared by all       *)
+(*       renders: every render may read it, none may write it);             *)
 (*    "memo_cache": template lookup goes through an unsynchronised,        *)
 (*       lazily filled cache in the shared tree (slot reserved in one      *)
 (*       step, filled in the next).                                        *)
@@ -215,14 +220,27 @@ LetValueF(s, h, rest) ==
   IF IsBad(v) THEN StopF(s1, BadSt(v))
   ELSE [SetTopF(s1, BindF(s, TopF(s), h.name, v)) EXCEPT !.ctl = rest]
 
+\* the variable whose map a data expression hands on unchanged: $m itself, or
+\* augmentMap($m, e) with e an empty map ("" if there is none)
+SharedSrc(de, env) ==
+  IF de.k = "var" /\ Len(de.acc) = 0 THEN de.name
+  ELSE IF de.k = "fn" /\ de.name = "augmentMap" /\ Len(de.args) = 2
+          /\ de.args[1].k = "var" /\ Len(de.args[1].acc) = 0
+       THEN LET b == Eval(de.args[2], env) IN
+            IF ~IsBad(b) /\ b.t = "map" /\ DOMAIN b.v = {} THEN de.args[1].name ELSE ""
+  ELSE ""
+
 CallBeginF(s, h, rest) ==
   LET base == CASE h.data = "all" ->
                      (IF "alldata_includes_locals" \in Dev THEN M(X(s)!Visible) ELSE M(TopF(s).tdata))
                 [] h.data = "expr" -> Eval(h.de, X(s)!Env)
                 [] OTHER -> M(X(s)!EmptyF)
       s1 == IF h.data = "expr" THEN NoteUnbound(s, h.de) ELSE s
+      src == IF h.data = "expr" THEN SharedSrc(h.de, X(s)!Env) ELSE ""
       pe == IF "render_mutates_data" \in Dev
             THEN [tmpl |-> h.tmpl, data |-> base.v, all |-> h.data = "all"]
+            ELSE IF "callee_params_into_shared_map" \in Dev /\ src # ""
+            THEN [tmpl |-> h.tmpl, data |-> base.v, src |-> src]
             ELSE [tmpl |-> h.tmpl, data |-> base.v] IN
   IF h.tmpl \notin DOMAIN s.prog.bundle THEN NoClaimF(s1)
   ELSE IF IsBad(base) THEN StopF(s1, BadSt(base))
@@ -236,6 +254,14 @@ ParamWrite(s, key, v) ==
   IF "render_mutates_data" \in Dev /\ "all" \in DOMAIN s.pend[Len(s.pend)] /\ s.pend[Len(s.pend)].all
   THEN SetTopF(s1, [TopF(s) EXCEPT !.tdata = (key :> v) @@ @])
   ELSE s1
+
+\* the shared-data cell after a param write (changed only by the deviation)
+ShParamWrite(s, sh, key, v) ==
+  LET p == s.pend[Len(s.pend)] IN
+  IF "callee_params_into_shared_map" \in Dev /\ "src" \in DOMAIN p /\ "shared" \in DOMAIN sh
+     /\ p.src \in DOMAIN sh.shared
+  THEN [sh EXCEPT !.shared[p.src] = (key :> v) @@ @]
+  ELSE sh
 
 ParamValueF(s, h, rest) ==
   LET s1 == NoteUnbound(s, h.e) v == Eval(h.e, X(s)!Env) IN
@@ -297,13 +323,16 @@ StepCore(s, sh) ==
                         !.ctl = X(s)!Block("log", h.body) \o <<[k |-> "endlog"]>> \o rest])
     [] h.k = "endlog" -> keep([s EXCEPT !.bufs = SubSeq(@, 1, Len(@) - 1), !.ctl = rest])
     [] h.k = "call" -> keep(CallBeginF(s, h, rest))
-    [] h.k = "pv" -> keep(ParamValueF(s, h, rest))
+    [] h.k = "pv" ->
+         LET v == Eval(h.e, X(s)!Env) IN
+         [s |-> ParamValueF(s, h, rest), sh |-> IF IsBad(v) THEN sh ELSE ShParamWrite(s, sh, h.key, v)]
     [] h.k = "pc" ->
          keep([s EXCEPT !.bufs = Append(@, ""),
                         !.ctl = X(s)!Block("pc", h.body) \o <<[k |-> "endparam", key |-> h.key]>> \o rest])
     [] h.k = "endparam" ->
-         keep([ParamWrite(s, h.key, S(s.bufs[Len(s.bufs)])) EXCEPT
-                 !.bufs = SubSeq(@, 1, Len(@) - 1), !.ctl = rest])
+         [s |-> [ParamWrite(s, h.key, S(s.bufs[Len(s.bufs)])) EXCEPT
+                    !.bufs = SubSeq(@, 1, Len(@) - 1), !.ctl = rest],
+          sh |-> ShParamWrite(s, sh, h.key, S(s.bufs[Len(s.bufs)]))]
     [] h.k = "docall" -> CallEnterF(s, sh, rest)
     [] h.k = "ret" -> keep([s EXCEPT !.act = SubSeq(@, 1, Len(@) - 1), !.ctl = rest])
     [] h.k = "msg" -> keep([s EXCEPT !.ctl = h.body \o rest])
@@ -312,8 +341,14 @@ StepCore(s, sh) ==
 
 StepF(s0, sh0) ==
   LET filling == "fill" \in DOMAIN s0
-      s == IF filling THEN DropFill(s0) ELSE s0
-      sh == IF filling THEN [sh0 EXCEPT !.memo[s0.fill] = s0.prog.bundle[s0.fill].body] ELSE sh0 IN
+      s1 == IF filling THEN DropFill(s0) ELSE s0
+      sh == IF filling THEN [sh0 EXCEPT !.memo[s0.fill] = s0.prog.bundle[s0.fill].body] ELSE sh0
+      \* the entry template's data refers to the shared-data cell: what it sees
+      \* under a shared name is what the cell holds now
+      s == IF "shared" \in DOMAIN sh /\ Len(s1.act) > 0
+           THEN [s1 EXCEPT !.act[1].tdata =
+                   [k \in DOMAIN @ |-> IF k \in DOMAIN sh.shared /\ @[k].t = "map" THEN M(sh.shared[k]) ELSE @[k]]]
+           ELSE s1 IN
   IF s.status # "run" THEN [s |-> s, sh |-> sh]
   ELSE IF Len(s.ctl) = 0 THEN [s |-> [s EXCEPT !.status = "ok"], sh |-> sh]
   ELSE LET f == CfgOf(s).fns IN
